@@ -196,6 +196,7 @@ class Ctx:
         self.notes = []
         self.shards = 0
         self.coq_time = 0.0
+        self.trusted_extra = []     # additions to evidence.trusted_base made by core (translator)
 
     # -- bookkeeping helpers -------------------------------------------------
     def count(self, key=None, nontrivial=True):
@@ -211,10 +212,10 @@ class Ctx:
         return thorough if self.thorough else quick
 
     # -- Coq evaluation --------------------------------------------------------
-    def _coqc(self, path, timeout):
+    def _coqc(self, path, timeout, extra_flags=()):
         t = time.time()
         try:
-            p = subprocess.run(["coqc"] + COQ_FLAGS + [path], capture_output=True, text=True, timeout=timeout,
+            p = subprocess.run(["coqc"] + COQ_FLAGS + list(extra_flags) + [path], capture_output=True, text=True, timeout=timeout,
                                cwd=os.path.dirname(path))
             out, err, rc = p.stdout, p.stderr, p.returncode
         except subprocess.TimeoutExpired as e:
@@ -329,9 +330,17 @@ class Ctx:
 # --------------------------------------------------------------------------
 # Coq build and proof obligations
 # --------------------------------------------------------------------------
+GENPROOFS = os.path.join(COQ, "theories", "GenProofs")
+
+
 def coq_sources():
+    """The committed development built by `make`.  theories/GenProofs is not part of it: those proofs
+    are about definitions generated from $VERIF_REPO on every run (see translated_obligations)."""
     out = []
-    for root, _, files in os.walk(os.path.join(COQ, "theories")):
+    for root, dirs, files in os.walk(os.path.join(COQ, "theories")):
+        if os.path.abspath(root) == GENPROOFS:
+            dirs[:] = []
+            continue
         for f in files:
             if f.endswith(".v"):
                 out.append(os.path.relpath(os.path.join(root, f), COQ))
@@ -355,6 +364,15 @@ def targets_of(mod):
         f = "theories/" + extra.replace(".", "/") + ".v"
         if os.path.exists(os.path.join(COQ, f)):
             targets.append(f + "o")
+    # the committed modules that the per-run equivalence proofs (GenProofs) import
+    for entry in getattr(mod, "TRANSLATED", []) or []:
+        path = os.path.join(COQ, "theories", entry["equiv"])
+        if os.path.exists(path):
+            for line in re.findall(r"From\s+Artap\s+Require\s+(?:Import|Export)?\s*([^.]*(?:\.[A-Za-z][^.]*)*)\.", open(path).read()):
+                for m in line.split():
+                    f = "theories/" + m.replace(".", "/") + ".v"
+                    if os.path.exists(os.path.join(COQ, f)) and f + "o" not in targets:
+                        targets.append(f + "o")
     return targets
 
 
@@ -378,23 +396,28 @@ def build(jobs=NCPU, timeout=3600, only=None, keep_going=False):
         lock.close()
 
 
+def _scan_text(src, txt):
+    hits = []
+    txt_nc = re.sub(r"\(\*.*?\*\)", lambda m: " " * len(m.group(0)), txt, flags=re.S)
+    # Variable/Hypothesis/Context are fine inside Sections: check nesting line by line
+    depth = 0
+    for ln, line in enumerate(txt_nc.split("\n"), 1):
+        if re.match(r"\s*(Section|Module)\s", line):
+            depth += 1
+        if re.match(r"\s*End\s", line):
+            depth -= 1
+        for m in FORBIDDEN.finditer(line):
+            w = m.group(0)
+            if w in ("Variable", "Variables", "Hypothesis", "Hypotheses") and depth > 0:
+                continue
+            hits.append("%s:%d: %s" % (src, ln, line.strip()[:100]))
+    return hits
+
+
 def scan_forbidden():
     hits = []
     for src in coq_sources():
-        txt = open(os.path.join(COQ, src)).read()
-        txt_nc = re.sub(r"\(\*.*?\*\)", lambda m: " " * len(m.group(0)), txt, flags=re.S)
-        # Variable/Hypothesis/Context are fine inside Sections: check nesting line by line
-        depth = 0
-        for ln, line in enumerate(txt_nc.split("\n"), 1):
-            if re.match(r"\s*(Section|Module)\s", line):
-                depth += 1
-            if re.match(r"\s*End\s", line):
-                depth -= 1
-            for m in FORBIDDEN.finditer(line):
-                w = m.group(0)
-                if w in ("Variable", "Variables", "Hypothesis", "Hypotheses") and depth > 0:
-                    continue
-                hits.append("%s:%d: %s" % (src, ln, line.strip()[:100]))
+        hits += _scan_text(src, open(os.path.join(COQ, src)).read())
     return hits
 
 
@@ -447,6 +470,178 @@ def proof_obligations(ctx):
             ok += 1
     ctx.discharged = 0 if (rc != 0 or hits) else ok
     ctx.axioms = sorted(axioms)
+    translated_obligations(ctx)
+
+
+# --------------------------------------------------------------------------
+# second tie between code and model: definitions regenerated from the source on every run
+# --------------------------------------------------------------------------
+def translated_specs(*modules):
+    """TRANSLATED entries of a property module, loaded from coq/theories/GenProofs/specs/<Module>.json
+    (one file per generated module, shared by every property that uses the function and by the
+    command line of tools/py2coq.py)."""
+    return [json.load(open(os.path.join(GENPROOFS, "specs", m + ".json"))) for m in modules]
+
+
+def _py2coq():
+    import importlib.util
+    spec = importlib.util.spec_from_file_location("py2coq", os.path.join(VERIF, "tools", "py2coq.py"))
+    m = importlib.util.module_from_spec(spec)
+    spec.loader.exec_module(m)
+    return m
+
+
+def reference_path(qual):
+    return os.path.join(GENPROOFS, "reference", qual + ".py.txt")
+
+
+def _source_diff(qual, current):
+    """unified diff of the function's source against the reference copy the proofs were written for"""
+    import difflib
+    ref = reference_path(qual)
+    if not os.path.exists(ref):
+        return "(no reference copy %s)" % ref
+    old = open(ref).read()
+    if old == current:
+        return "(source of %s is identical to the reference copy)" % qual
+    return "".join(difflib.unified_diff(old.splitlines(True), current.splitlines(True),
+                                        "reference/%s.py.txt" % qual, "%s (current source)" % qual))[:6000]
+
+
+def translated_obligations(ctx):
+    """For every entry of the property module's TRANSLATED list: regenerate the Gallina definitions
+    from $VERIF_REPO's source (tools/py2coq.py, fail-closed), compile them, compile the committed proof
+    that they equal the hand-written model (coq/theories/GenProofs/<Name>Equiv.v) against them, and
+    check the assumptions of the equivalence theorems.  Everything is written to .work/CXX/gen (logical
+    path ArtapGen), so concurrent checks with different VERIF_REPO do not interfere.  A failure is a
+    proof failure of the check: an edit of a translated function either keeps the equivalence proof
+    going (harmless rewrite) or breaks an obligation, independent of any generator."""
+    entries = getattr(ctx.mod, "TRANSLATED", None)
+    if not entries:
+        return
+    t0 = time.time()
+    gen = os.path.join(ctx.work, "gen")
+    os.makedirs(gen, exist_ok=True)
+    flags = ["-Q", gen, "ArtapGen"]
+    ctx.trusted_extra.append(
+        "tools/py2coq.py (translator): the generated definitions are what the Python source of the translated "
+        "functions means under the translator's stated assumptions (notes/TRANSLATOR.md: float `/` is `div`, no "
+        "operator overloading, attribute reads are plain reads, numeric literals by name, markers as integers); "
+        "they are proved equal to the hand-written model on every run, and the model is compared with the running "
+        "code by the correspondence")
+    allowed = [re.compile(a) for a in getattr(ctx.mod, "AXIOMS_OK", [])]
+    record = []
+    ctx.extra["translated_functions"] = record
+    try:
+        py2coq = _py2coq()
+    except Exception as e:
+        ctx.obligations += sum(len(en["theorems"]) for en in entries)
+        ctx.proof_failures.append({"what": "translator tools/py2coq.py cannot be loaded: %r" % (e,)})
+        return
+    shutil.copy(os.path.join(GENPROOFS, "GenTactics.v"), os.path.join(gen, "GenTactics.v"))
+    jobs = []           # (entry, info, generated path or None)
+    hits = _scan_text("GenProofs/GenTactics.v", open(os.path.join(GENPROOFS, "GenTactics.v")).read())
+    for en in entries:
+        ctx.obligations += len(en["theorems"])
+        names = ", ".join((c + "." if c else "") + f for c, f in en["functions"])
+        try:
+            text, info = py2coq.translate_spec(REPO, en)
+        except Exception as e:  # Unsupported, SyntaxError, missing file ...: fail closed
+            info = []
+            try:
+                info = py2coq.function_infos(REPO, en)
+            except Exception:
+                pass
+            ctx.proof_failures.append({
+                "what": "source of %s no longer translates (%s): the translated definition can no longer be shown "
+                        "equal to the model %s" % (names, e, en.get("model", "")),
+                "theorem": ", ".join(en["theorems"]), "translator_error": str(e),
+                "source_diff": {i["function"]: _source_diff(i["function"], i["source"]) for i in info}})
+            record.append({"module": en["module"], "source": en["source"], "functions": names, "status": "does not translate",
+                           "sha1": {i["function"]: i["sha1"] for i in info}})
+            continue
+        path = os.path.join(gen, en["module"] + ".v")
+        open(path, "w").write(text)
+        hits += _scan_text(path, text)
+        eq_src = os.path.join(COQ, "theories", en["equiv"])
+        eq_dst = os.path.join(gen, os.path.basename(en["equiv"]))
+        shutil.copy(eq_src, eq_dst)
+        hits += _scan_text(en["equiv"], open(eq_src).read())
+        jobs.append((en, info, path, eq_dst))
+    if hits:
+        ctx.proof_failures.append({"what": "forbidden vernacular in the generated definitions / GenProofs", "hits": hits[:20]})
+    # stage 1: GenTactics and the generated files; stage 2: equivalence files; stage 3: assumptions
+    with ThreadPoolExecutor(NCPU) as ex:
+        r1 = list(ex.map(lambda pth: ctx._coqc(pth, 300, flags), [os.path.join(gen, "GenTactics.v")] + [j[2] for j in jobs]))
+    tact_ok = r1[0][0] == 0
+    if not tact_ok:
+        ctx.proof_failures.append({"what": "GenProofs/GenTactics.v does not compile", "stderr": r1[0][2][-1500:]})
+    stage2 = []
+    for (en, info, path, eq_dst), (rc, out, err) in zip(jobs, r1[1:]):
+        if rc != 0:
+            ctx.proof_failures.append({
+                "what": "the definition translated from %s does not type-check in Coq" % en["source"],
+                "theorem": ", ".join(en["theorems"]), "file": path, "stderr": err[-1500:],
+                "source_diff": {i["function"]: _source_diff(i["function"], i["source"]) for i in info}})
+            record.append({"module": en["module"], "source": en["source"], "status": "generated file does not compile",
+                           "sha1": {i["function"]: i["sha1"] for i in info}})
+        elif tact_ok:
+            stage2.append((en, info, path, eq_dst))
+    with ThreadPoolExecutor(NCPU) as ex:
+        r2 = list(ex.map(lambda j: ctx._coqc(j[3], 600, flags), stage2))
+    stage3 = []
+    for (en, info, path, eq_dst), (rc, out, err) in zip(stage2, r2):
+        changed = [i["function"] for i in info if not os.path.exists(reference_path(i["function"]))
+                   or open(reference_path(i["function"])).read() != i["source"]]
+        if rc != 0:
+            ctx.proof_failures.append({
+                "what": "the definition translated from the current source of %s no longer equals the model %s "
+                        "(equivalence proof %s fails)" % (", ".join(i["function"] for i in info), en.get("model", ""), en["equiv"]),
+                "theorem": ", ".join(en["theorems"]), "generated": path, "stderr": err[-1500:],
+                "source_diff": {i["function"]: _source_diff(i["function"], i["source"]) for i in info}})
+            record.append({"module": en["module"], "source": en["source"], "status": "equivalence proof fails",
+                           "sha1": {i["function"]: i["sha1"] for i in info}, "changed_since_reference": changed})
+        else:
+            stage3.append((en, info, path, eq_dst, changed))
+
+    def assumptions(j):
+        en = j[0]
+        modname = "ArtapGen." + os.path.splitext(os.path.basename(en["equiv"]))[0]
+        p3 = os.path.join(gen, "assume_%s.v" % en["module"])
+        with open(p3, "w") as f:
+            f.write("Require %s.\n" % modname)
+            for t in en["theorems"]:
+                f.write('Goal True. idtac "@@BEGIN %s". exact I. Qed.\nPrint Assumptions %s.%s.\n' % (t, modname, t))
+            f.write('Goal True. idtac "@@END". exact I. Qed.\n')
+        return ctx._coqc(p3, 300, flags)
+    with ThreadPoolExecutor(NCPU) as ex:
+        r3 = list(ex.map(assumptions, stage3))
+    for (en, info, path, eq_dst, changed), (rc, out, err) in zip(stage3, r3):
+        per = {}
+        if rc == 0:
+            blocks = re.split(r"@@BEGIN (\S+)", out)
+            for i in range(1, len(blocks) - 1, 2):
+                per[blocks[i]] = _parse_axioms(blocks[i + 1].split("@@END")[0])
+        ok = 0
+        for t in en["theorems"]:
+            if t not in per:
+                ctx.proof_failures.append({"what": "equivalence theorem missing from %s" % en["equiv"], "theorem": t,
+                                           "stderr": err[-800:]})
+                continue
+            bad = [a for a in per[t] if not any(r.fullmatch(a) for r in allowed)]
+            ctx.axioms = sorted(set(ctx.axioms) | per[t])
+            if bad:
+                ctx.proof_failures.append({"what": "equivalence theorem depends on an axiom outside the property's whitelist",
+                                           "theorem": t, "axioms": sorted(bad)})
+            else:
+                ok += 1
+        if not hits:
+            ctx.discharged += ok
+        record.append({"module": en["module"], "source": en["source"], "equiv": en["equiv"], "theorems": en["theorems"],
+                       "model": en.get("model", ""), "status": "proved equal to the model" if ok == len(en["theorems"]) else "failed",
+                       "sha1": {i["function"]: i["sha1"] for i in info},
+                       "changed_since_reference": changed})
+    ctx.extra["translated_s"] = round(time.time() - t0, 2)
 
 
 def _parse_axioms(text):
@@ -481,8 +676,9 @@ def write_evidence(ctx, violations):
         "obligations": ctx.obligations,
         "discharged": ctx.discharged,
         "checker_cmd": "make -C /verif/coq (coqc 8.16.1, full .vo build) && coqc Print Assumptions on %s" % ", ".join(mod.THEOREMS),
-        "trusted_base": list(getattr(mod, "TRUSTED", [])) + ["axioms reported by Print Assumptions: " + (", ".join(ctx.axioms) if ctx.axioms else "none (closed under the global context)")],
-        "theorems": [t for ts in mod.THEOREMS.values() for t in ts],
+        "trusted_base": list(getattr(mod, "TRUSTED", [])) + list(ctx.trusted_extra) + ["axioms reported by Print Assumptions: " + (", ".join(ctx.axioms) if ctx.axioms else "none (closed under the global context)")],
+        "theorems": [t for ts in mod.THEOREMS.values() for t in ts]
+                    + [t for en in (getattr(mod, "TRANSLATED", None) or []) for t in en["theorems"]],
         "evaluations": ctx.evaluations,
         "distinct_nontrivial": len(ctx.distinct),
         "rule": ctx.rule,
